@@ -94,3 +94,50 @@ func (r *run) countShape(prefix string, t *m.TNode) {
 	r.bump(fmt.Sprintf("%s:largest-optional-set-%d", prefix, mo))
 	r.bump(fmt.Sprintf("%s:deepest-annotated-object-at-level-%d", prefix, od))
 }
+
+// veryWideType: one object or tuple with 31..70 members (primitive or one-level member types), about half
+// of an object's attributes optional, sometimes below a collection. Every single-position mutant of it is
+// then compared with it (allMutants), so a comparison, conformance walk, strip or serialisation that keeps
+// per-member bookkeeping in a machine word (32 / 64 flags) or a small fixed array is exercised beyond its
+// width, at every position.
+func veryWideType(r *core.Rand) *m.TNode {
+	n := []int{31, 32, 33, 63, 64, 65, 66, 70}[r.Intn(8)]
+	leaf := func() *m.TNode {
+		switch r.Intn(8) {
+		case 0:
+			return m.ListOf(gen.Type(r, 1, typeOpts))
+		case 1:
+			return gen.Type(r, 2, typeOpts)
+		}
+		return gen.Type(r, 1, typeOpts)
+	}
+	var t *m.TNode
+	if r.Chance(1, 3) {
+		es := make([]*m.TNode, n)
+		for i := range es {
+			es[i] = leaf()
+		}
+		t = m.TupleOf(es...)
+	} else {
+		t = &m.TNode{K: m.KObject, Attrs: map[string]*m.TNode{}}
+		for i := 0; i < n; i++ {
+			k := fmt.Sprintf("a%02d", i)
+			t.Attrs[k] = leaf()
+			if r.Bool() {
+				if t.Opt == nil {
+					t.Opt = map[string]bool{}
+				}
+				t.Opt[k] = true
+			}
+		}
+	}
+	switch r.Intn(6) {
+	case 0:
+		return m.ListOf(t)
+	case 1:
+		return m.MapOf(t)
+	case 2:
+		return m.TupleOf(m.Prim(m.KString), t)
+	}
+	return t
+}
